@@ -309,7 +309,7 @@ func classify(c *Case, pats []string, q Req, rp string, want ref.Result, expect 
 
 var reserved = []string{"a:b", "https:evil.com", "a?b", "a#b", "a%b", "a b", "é", "a%2Fb", "a;b", "a=b&c", "a+b", "%41", "a.b", "a%2F", "%2Fa", "%2E%2E", "%2e", "a%2F%2Fb"}
 var queries = []string{"", "", "?q=1", "?a=%2F&b=c%20d", "?", "?x=y%23z&u=https://h/p?q"}
-var methods = []string{"GET", "GET", "GET", "POST", "CONNECT", "FOO"}
+var methods = []string{"GET", "GET", "GET", "POST", "CONNECT", "FOO", "HEAD"}
 
 func escapeSeg(s string) string {
 	if strings.Contains(s, "%2F") || strings.Contains(s, "%2E") || strings.Contains(s, "%2e") || s == "%41" { // already an escaped form: keeps RawPath different from Path
